@@ -664,3 +664,106 @@ def flow_states(body, facts, init, on_call, on_edge, max_configs=200000, on_bloc
         for s, lab in body.succs(bb):
             work.append((s, st, frozenset(env.items())))
     return at
+
+
+# ---------------------------------------------------------------------------
+# value-set exploration: which values of a repeatedly tested term can reach a block
+# ---------------------------------------------------------------------------
+
+def _vkey(t):
+    """key of a tested value: the term without block ids, a trailing newtype `.0` stripped (int_enum! types switch on
+    the inner integer, `==` compares the wrapper)"""
+    t = deep_strip(t)
+    while t[0] == "field" and str(t[2]) == "0":
+        t = deep_strip(t[1])
+    return str(canon_nobb(t))
+
+
+def value_states(body, facts, keys=None, max_configs=200000):
+    """Forward exploration that carries, per path, what is known about integer-tested terms (`== k` / `not in {..}`) and
+    about the variant of Option/Result locals assigned as a whole, and prunes edges that contradict it (state "DEAD").
+    Knowledge comes from switch edges on the term and from bool edges on `term == CONST` / `term != CONST` (operator or
+    PartialEq call).  Returns ({bb: set(states)} or None if the budget is exhausted, key function)."""
+    b = body
+
+    def constraint(fact):
+        """(key, ('eq', k) | ('ne', frozenset)) or None"""
+        if fact is None:
+            return None
+        tm, v = fact
+        if isinstance(v, tuple) and v[0] in ("eq", "ne"):
+            vals = v[1]
+            if v[0] == "eq":
+                return _vkey(tm), ("eq", vals)
+            vs = frozenset(vals) if isinstance(vals, (tuple, list, set, frozenset)) else frozenset([vals])
+            return _vkey(tm), ("ne", vs)
+        if isinstance(v, bool):
+            d = deep_strip(tm)
+            op, x, y = None, None, None
+            if d[0] == "bin" and d[1] in ("Eq", "Ne"):
+                op, x, y = d[1].lower(), d[2], d[3]
+            elif d[0] == "call" and re.search(r"PartialEq(<.*>)?::(eq|ne)$", d[1] or "") and len(d[3]) == 2:
+                op, x, y = d[1].rsplit("::", 1)[1], d[3][0], d[3][1]
+            if op:
+                kx, ky = const_value(deep_strip(x)), const_value(deep_strip(y))
+                if (kx is None) != (ky is None):
+                    k, other = (ky, x) if ky is not None else (kx, y)
+                    is_eq = (op == "eq") == v
+                    return _vkey(other), (("eq", k) if is_eq else ("ne", frozenset([k])))
+        return None
+
+    def merge(st, key, c):
+        cur = dict(st)
+        old = cur.get(key)
+        if c[0] == "eq":
+            if old is not None and ((old[0] == "eq" and old[1] != c[1]) or (old[0] == "ne" and c[1] in old[1])):
+                return "DEAD"
+            cur[key] = c
+        else:
+            if old is not None and old[0] == "eq":
+                if old[1] in c[1]:
+                    return "DEAD"
+            else:
+                cur[key] = ("ne", (old[1] if old else frozenset()) | c[1])
+        return tuple(sorted(cur.items(), key=lambda kv: kv[0]))
+
+    def on_call(bb, term, st):
+        return st
+
+    def on_edge(bb, lab, fact, st):
+        if st == "DEAD" or fact is None:
+            return st
+        c = constraint(fact)
+        if c is not None and (keys is None or c[0] in keys):
+            st = merge(st, c[0], c[1])
+            if st == "DEAD":
+                return st
+        tm, v = fact
+        if isinstance(v, tuple) and v[0] == "variant":
+            for s in b.blocks[bb]["s"]:
+                if s[0] == "=" and s[2][0] == "discr" and s[2][1] and len(s[2][1]) == 1:
+                    cc = dict(st).get("var:%d" % s[2][1][0])
+                    if cc is not None and cc[1] != v[1]:
+                        return "DEAD"
+        return st
+
+    def on_block(bb, st):
+        if st == "DEAD":
+            return st
+        cur = dict(st)
+        ch = False
+        for s in b.blocks[bb]["s"]:
+            if s[0] != "=" or len(s[1]) != 1:
+                continue
+            k = "var:%d" % s[1][0]
+            rv = s[2]
+            if rv[0] == "agg" and rv[1][0] == "adt" and rv[1][1] in ("core::option::Option", "core::result::Result"):
+                cur[k] = ("eq", rv[1][2]); ch = True
+            elif rv[0] == "use" and rv[1][0] in ("c", "m") and len(rv[1][1]) == 1 and ("var:%d" % rv[1][1][0]) in cur:
+                cur[k] = cur["var:%d" % rv[1][1][0]]; ch = True
+            elif k in cur:
+                del cur[k]; ch = True
+        return tuple(sorted(cur.items(), key=lambda kv: kv[0])) if ch else st
+
+    at = flow_states(body, facts, (), on_call, on_edge, max_configs=max_configs, on_block=on_block)
+    return at, _vkey
